@@ -245,6 +245,11 @@ def r9_3(ctx):
 def r9_4(ctx):
     ctx.rule("R9.4", "text measure: for Text the minimum is the largest cell_len over text.split() (widest word) and the maximum the largest cell_len over text.splitlines() (widest line) - the cell width is measured for every candidate, not for the candidate with most characters")
     f = ctx.repo.fn("text:Text.__rich_measure__")
+    from ..astutil import inline as _inl94, single_defs as _sdf94
+    sd94 = _sdf94(f.node)
+
+    def full(e):
+        return norm(_inl94(e, sd94))
     found = {}
     for x in walk_local(f.node):
         if isinstance(x, ast.Assign) and isinstance(x.value, ast.Call) and call_name(x.value) == "max" and x.value.args:
@@ -252,16 +257,16 @@ def r9_4(ctx):
             key = any(k.arg == "key" for k in x.value.keywords)
             src = None
             inner_ok = False
-            if isinstance(a, ast.GeneratorExp) and len(a.generators) == 1:
-                it = norm(a.generators[0].iter)
+            if isinstance(a, (ast.GeneratorExp, ast.ListComp)) and len(a.generators) == 1 and not a.generators[0].ifs:
+                it = full(a.generators[0].iter)
                 tv = norm(a.generators[0].target)
                 inner_ok = norm(a.elt) == f"cell_len({tv})" and not key
                 src = it
             elif isinstance(a, ast.Call) and call_name(a) == "map" and len(a.args) == 2 and norm(a.args[0]) == "cell_len":
                 inner_ok = not key
-                src = norm(a.args[1])
+                src = full(a.args[1])
             else:
-                src = norm(a)
+                src = full(a)
             found[norm(x.targets[0])] = (src, inner_ok, x)
     # a module-level helper computing the running maximum of cell_len over its parameter is the same thing as max(cell_len(x) ..)
     def widest_helper(call):
@@ -296,16 +301,39 @@ def r9_4(ctx):
         return bool(inits_) and upd
     for x in walk_local(f.node):
         if isinstance(x, ast.Assign) and widest_helper(x.value):
-            found[norm(x.targets[0])] = (norm(x.value.args[0]), True, x)
+            found[norm(x.targets[0])] = (full(x.value.args[0]), True, x)
+    # the same running maximum written out in the method itself:  acc = 0; for p in SRC: acc = max(acc, cell_len(p)); var = acc
+    for lp_ in [x for x in walk_local(f.node) if isinstance(x, ast.For) and isinstance(x.target, ast.Name)]:
+        sdl = {}
+        for b_ in lp_.body:
+            if isinstance(b_, ast.Assign) and len(b_.targets) == 1 and isinstance(b_.targets[0], ast.Name):
+                sdl[b_.targets[0].id] = b_.value
+        for b in lp_.body:
+            if isinstance(b, ast.Assign) and len(b.targets) == 1 and isinstance(b.targets[0], ast.Name):
+                acc = b.targets[0].id
+                v = _inl94(b.value, {k: vv for k, vv in sdl.items() if k != acc})
+                if isinstance(v, ast.Call) and norm(v.func) == "max" and sorted(norm(a_) for a_ in v.args) == sorted([acc, f"cell_len({lp_.target.id})"]):
+                    inits_ = [x for x in walk_local(f.node) if isinstance(x, ast.Assign) and norm(x.targets[0]) == acc and norm(x.value) == "0"]
+                    if inits_:
+                        srcs_ = [x.value for x in walk_local(f.node) if isinstance(x, ast.Assign) and norm(x.targets[0]) == norm(lp_.iter)] if isinstance(lp_.iter, ast.Name) else [lp_.iter]
+                        src_txt = norm(srcs_[0]) if len(srcs_) == 1 else full(lp_.iter)
+                        src_txt = norm(_inl94(ast.parse(src_txt, mode="eval").body, sd94))
+                        for x in walk_local(f.node):
+                            if isinstance(x, ast.Assign) and isinstance(x.value, ast.Name) and x.value.id == acc and isinstance(x.targets[0], ast.Name):
+                                found.setdefault(x.targets[0].id, (src_txt, True, x))
+                        found.setdefault(acc, (src_txt, True, b))
     rets = [r for r in walk_local(f.node) if isinstance(r, ast.Return) and isinstance(r.value, ast.Call) and norm(r.value.func) == "Measurement" and len(r.value.args) == 2 and all(isinstance(a, ast.Name) for a in r.value.args)]
     if not rets:
         raise AnalysisError("Text.__rich_measure__: final Measurement(min, max) of two names not found")
     mn, mx = (a.id for a in rets[-1].value.args)
     for var, want, what in ((mn, "text.split()", "widest word"), (mx, "text.splitlines()", "widest line")):
         src, ok, node = found.get(var, (None, False, rets[-1]))
+        if src is not None:
+            src = src.replace("self.plain.", "text.")
         ctx.check(ok and src == want, f.fq, short(node), f"{f.module.relpath}:{node.lineno}", f"{what} = max(cell_len(x) for x in {want})",
                   f"the {what} is computed as `{short(node)}`: it must be the maximum of cell_len over every element of {want}; picking the element with most characters first under-measures text mixing single- and double-width characters, so the text wraps at its own reported maximum")
-    ctx.check(any(isinstance(x, ast.Assign) and norm(x.targets[0]) == "text" and norm(x.value) == "self.plain" for x in walk_local(f.node)), f.fq, "text = self.plain", f.where, "measured string is the plain text", "the measured string is not self.plain")
+    measured = {full(c.func.value) for c in walk_local(f.node) if isinstance(c, ast.Call) and isinstance(c.func, ast.Attribute) and c.func.attr in ("split", "splitlines") and not c.args}
+    ctx.check(measured == {"self.plain"}, f.fq, "text = self.plain", f.where, "measured string is the plain text", f"the measured string is {sorted(measured)}, not self.plain")
 
 
 def r9_5(ctx):
